@@ -112,3 +112,8 @@ Theorem c10_tie_ssh2_block_test : forall paylen padlen, (4 + 1 + paylen + padlen
 Proof. exact tie_ssh2_block_test. Qed.
 Theorem c10_tie_ssh1_block_test : forall padlen plen, (padlen + plen) mod 8 = src_ssh1_check_size padlen plen mod src_block_size.
 Proof. exact tie_ssh1_block_test. Qed.
+(* SSH1_CRC32 as it reads now (T1c translation of calc()'s loop body and of the constructor's inner loop body) *)
+Theorem c10_tie_crc_step : forall crc b, src_crc_step crc_table crc b = crc_step crc b.
+Proof. exact tie_crc_step. Qed.
+Theorem c10_tie_crc_bit_step : forall k crc n, crc_bits (S k) crc n = crc_bits k (fst (src_crc_bit_step crc n)) (snd (src_crc_bit_step crc n)).
+Proof. exact tie_crc_bit_step. Qed.
